@@ -584,14 +584,9 @@ func specPreorderAll(roots []*Node, i int) []*Node {
 //@   ensures sticky: old(wfail) ==> wfail
 //@ loop gtree.colorizeSpreaderSimple.spread#1
 //@   invariant sofar: ret == specDryReport(cs.fileColor, cs.dirColor, cs.fileConsiderer.extensions, roots, $i)
-//@ func gtree.formattedSpreaderSimple.spread
-//@   assumed
-//@   modifies out, wfail
-//@   ensures sticky: old(wfail) ==> wfail
-
 //@ func gtree.treeSimple.outputProgrammably
 //@   requires ok: simpleTreeOK(t, cfg) && root != nil && root.hierarchy == 1
-//@   modifies Node.brnch.value, Node.brnch.path, out, wfail, defaultGrowSpreaderSimple.w, defaultSpreaderSimple.w, counter.n
+//@   modifies Node.brnch.value, Node.brnch.path, out, wfail, defaultGrowSpreaderSimple.w, defaultSpreaderSimple.w, counter.n, encTrace, encoders
 //@   ensures render [C03,C13]: cfg.encode == encodeDefault && result == nil ==> out[w] == old(out[w]) ++ specRender(cfg.lastNodeFormat, cfg.intermedialNodeFormat, root)
 //@   ensures accepted [C14]: cfg.encode == encodeDefault && result == nil ==> wfail == old(wfail)
 //@   ensures text [C03]: cfg.encode == encodeDefault && result != nil ==> wfail
@@ -630,13 +625,13 @@ func specPreorderAll(roots []*Node, i int) []*Node {
 // The massive (pipeline) implementations are not under contract (C10, C11 are not applicable to this technique).
 //@ func gtree.treePipeline.outputProgrammably
 //@   assumed
-//@   modifies Node.brnch.value, Node.brnch.path, out, wfail, defaultGrowSpreaderSimple.w, defaultSpreaderSimple.w, counter.n
+//@   modifies Node.brnch.value, Node.brnch.path, out, wfail, defaultGrowSpreaderSimple.w, defaultSpreaderSimple.w, counter.n, encTrace, encoders
 //@ func gtree.treePipeline.walkProgrammably
 //@   assumed
 //@   modifies Node.brnch.value, Node.brnch.path, cbTrace, cbFailed, cbLastErr
 
 //@ contract fromRootOutput
-//@   modifies Node.brnch.value, Node.brnch.path, out, wfail, defaultGrowSpreaderSimple.w, defaultSpreaderSimple.w, counter.n
+//@   modifies Node.brnch.value, Node.brnch.path, out, wfail, defaultGrowSpreaderSimple.w, defaultSpreaderSimple.w, counter.n, encTrace, encoders
 //@   ensures nilnode [C03]: root == nil ==> result == ErrNilNode && out == old(out) && wfail == old(wfail)
 //@   ensures notroot [C03]: root != nil && root.hierarchy != 1 ==> result == ErrNotRoot && out == old(out) && wfail == old(wfail)
 //@   ensures render [C03,C13,C14,C12]: root != nil && root.hierarchy == 1 ==> (exists c *config :: {c.massive} fresh(c) && (!c.massive && c.encode == encodeDefault ==> (result != nil ==> wfail) && (result == nil ==> wfail == old(wfail) && out[w] == old(out[w]) ++ specRender(c.lastNodeFormat, c.intermedialNodeFormat, root))))
@@ -707,7 +702,7 @@ func allRootsT(rs []*Node) bool { return true }
 // three iterator closures (iter.Pull2 coroutines) is not covered by this contract (marked partial; see DESIGN.md).
 //@ func gtree.treeSimple.output
 //@   requires ok: simpleTreeOK(t, cfg)
-//@   modifies Node.children, Node.parent, Node.brnch.value, Node.brnch.path, list.List.view, list.Element.backOf, counter.n, bufio.Scanner.pos, bufio.Scanner.failed, markdown.Parser.isSharpRoot, markdown.Parser.spaces, markdown.Parser.sep, out, wfail, defaultSpreaderSimple.w
+//@   modifies Node.children, Node.parent, Node.brnch.value, Node.brnch.path, list.List.view, list.Element.backOf, counter.n, bufio.Scanner.pos, bufio.Scanner.failed, markdown.Parser.isSharpRoot, markdown.Parser.spaces, markdown.Parser.sep, out, wfail, defaultSpreaderSimple.w, encTrace, encoders
 //@   use lemma lemmaRawAllIsRenderAll
 //@   ensures accepted [C14]: cfg.encode == encodeDefault && result == nil ==> old(wfail) || !wfail
 //@   ensures render [C01]: cfg.noUseIterOfSimpleOutput && cfg.encode == encodeDefault && !cfg.dryrun && result == nil ==> (exists rs []*Node :: {witness(roots)} allRoots(rs) && out[w] == old(out[w]) ++ specRenderAll(cfg.lastNodeFormat, cfg.intermedialNodeFormat, rs, len(rs)))
@@ -741,13 +736,13 @@ func lemmaRawAllIsRenderAll(last, mid branchFormat, roots []*Node, i int) {
 
 //@ func gtree.treePipeline.output
 //@   assumed
-//@   modifies Node.children, Node.parent, Node.brnch.value, Node.brnch.path, list.List.view, list.Element.backOf, counter.n, bufio.Scanner.pos, bufio.Scanner.failed, markdown.Parser.isSharpRoot, markdown.Parser.spaces, markdown.Parser.sep, out, wfail, defaultSpreaderSimple.w
+//@   modifies Node.children, Node.parent, Node.brnch.value, Node.brnch.path, list.List.view, list.Element.backOf, counter.n, bufio.Scanner.pos, bufio.Scanner.failed, markdown.Parser.isSharpRoot, markdown.Parser.spaces, markdown.Parser.sep, out, wfail, defaultSpreaderSimple.w, encTrace, encoders
 //@ func gtree.treePipeline.walk
 //@   assumed
 //@   modifies Node.children, Node.parent, Node.brnch.value, Node.brnch.path, list.List.view, list.Element.backOf, counter.n, bufio.Scanner.pos, bufio.Scanner.failed, markdown.Parser.isSharpRoot, markdown.Parser.spaces, markdown.Parser.sep, cbTrace, cbFailed, cbLastErr
 
 //@ contract fromMarkdownOutput
-//@   modifies Node.children, Node.parent, Node.brnch.value, Node.brnch.path, list.List.view, list.Element.backOf, counter.n, bufio.Scanner.pos, bufio.Scanner.failed, markdown.Parser.isSharpRoot, markdown.Parser.spaces, markdown.Parser.sep, out, wfail, defaultSpreaderSimple.w
+//@   modifies Node.children, Node.parent, Node.brnch.value, Node.brnch.path, list.List.view, list.Element.backOf, counter.n, bufio.Scanner.pos, bufio.Scanner.failed, markdown.Parser.isSharpRoot, markdown.Parser.spaces, markdown.Parser.sep, out, wfail, defaultSpreaderSimple.w, encTrace, encoders
 //@   ensures render [C01,C03,C12,C14,C17]: exists c *config :: {c.massive} fresh(c) && (!c.massive && c.encode == encodeDefault && !c.dryrun && result == nil ==> (old(wfail) || !wfail) && (c.noUseIterOfSimpleOutput ==> (exists rs []*Node :: allRoots(rs) && out[w] == old(out[w]) ++ specRenderAll(c.lastNodeFormat, c.intermedialNodeFormat, rs, len(rs)))))
 //@   ensures dryfs [C09]: fsOps == old(fsOps) && fsFailed == old(fsFailed)
 //@ applies fromMarkdownOutput to gtree.OutputFromMarkdown, gtree.Output
@@ -822,10 +817,6 @@ func lemmaRawAllIsRenderAll(last, mid branchFormat, roots []*Node, i int) {
 //@   invariant quiet [C14]: old(wfail) || !wfail
 
 // Placeholders until the C04 / C09 contracts cover them.
-//@ func gtree.formattedSpreaderSimple.spreadIter
-//@   assumed
-//@   param rootIter follows grownStream
-//@   yields errStream
 //@ func gtree.colorizeSpreaderSimple.spreadIter
 //@   requires ok: colorizeOK(cs)
 //@   param rootIter follows grownStream
@@ -1233,3 +1224,81 @@ func specDryReport(fileColor, dirColor *color.Color, ext []string, roots []*Node
 //@   ensures fail [C14]: result != nil ==> wfail
 //@   ensures frame: forall v any :: {out[v]} v != w ==> out[v] == old(out[v])
 //@   ensures sticky: old(wfail) ==> wfail
+
+// ---------------------------------------------------------------------------------------------
+// JSON / YAML / TOML (simple_tree_spreader.go): the structure handed to the encoder
+
+//@ field formattedSpreaderSimple.encode follows encoderFactory
+//@ field formattedSpreaderSimple.formattedRoot follows formattedRootFn
+//@ protocol formattedRootFn(name)
+//@   ensures root [C04]: fresh(result) && isType(result, $T) && as(result, $T).Name == name && len(as(result, $T).Children) == 0
+
+// the three root constructors are closures of the new*SpreaderSimple functions
+//@ closure gtree.newJSONSpreaderSimple#1
+//@   implements formattedRootFn jsonNode
+//@ closure gtree.newYAMLSpreaderSimple#1
+//@   implements formattedRootFn yamlNode
+//@ closure gtree.newTOMLSpreaderSimple#1
+//@   implements formattedRootFn tomlNode
+// the three encoder factories wrap library encoders (json.NewEncoder(w).Encode, ...): assumed to obey encoderFactory
+//@ closure gtree.newJSONSpreaderSimple#2
+//@   assumed
+//@   implements encoderFactory
+//@ closure gtree.newYAMLSpreaderSimple#2
+//@   assumed
+//@   implements encoderFactory
+//@ closure gtree.newTOMLSpreaderSimple#2
+//@   assumed
+//@   implements encoderFactory
+
+// toFormattedNode copies one level: names and arity of the children, in order, each child built by a recursive
+// call on a freshly appended, childless record; nothing allocated before the call is touched except fParent.Children.
+//@ contract formattedNodeSpec
+//@   requires nn: parent != nil && fParent != nil && isType(fParent, $T)
+//@   requires empty [C04]: len(as(fParent, $T).Children) == 0
+//@   modifies as(fParent, $T).Children
+//@   decreases down(parent)
+//@   ensures same [C04]: result == fParent && as(fParent, $T).Name == old(as(fParent, $T).Name)
+//@   ensures level [C04]: len(as(fParent, $T).Children) == len(parent.children) && (forall i int :: {as(fParent, $T).Children[i]} 0 <= i && i < len(parent.children) ==> as(fParent, $T).Children[i] != nil && fresh(as(fParent, $T).Children[i]) && as(fParent, $T).Children[i].Name == parent.children[i].name && len(as(fParent, $T).Children[i].Children) == len(parent.children[i].children))
+//@   ensures frame [C04]: (forall x $T :: {x.Children} !fresh(x) && x != fParent ==> x.Children == old(x.Children)) && (forall x $T :: {x.Name} !fresh(x) ==> x.Name == old(x.Name))
+//@ applies formattedNodeSpec to gtree.toFormattedNode[jsonNode], gtree.toFormattedNode[yamlNode], gtree.toFormattedNode[tomlNode]
+//@ loop gtree.toFormattedNode#1
+//@   invariant count: len(as(fParent, $T).Children) == $i && as(fParent, $T).Name == old(as(fParent, $T).Name)
+//@   invariant level: forall j int :: {as(fParent, $T).Children[j]} 0 <= j && j < $i ==> as(fParent, $T).Children[j] != nil && fresh(as(fParent, $T).Children[j]) && as(fParent, $T).Children[j].Name == parent.children[j].name && len(as(fParent, $T).Children[j].Children) == len(parent.children[j].children)
+//@   invariant frame: (forall x $T :: {x.Children} !fresh(x) && x != fParent ==> x.Children == old(x.Children)) && (forall x $T :: {x.Name} !fresh(x) ==> x.Name == old(x.Name))
+
+// spread: one encoder per call, Encode once per root, in order, with a record whose first level mirrors the root;
+// the first encoder error is returned.
+//@ contract formattedSpreadSpec
+//@   requires nn: f != nil && f.encode != nil && f.formattedRoot != nil
+//@   requires roots: forall k int :: {roots[k]} 0 <= k && k < len(roots) ==> roots[k] != nil
+//@   modifies out, wfail, encTrace, encoders
+//@   ensures once [C04]: encoders == old(encoders) + 1
+//@   ensures trace [C04]: result == nil ==> len(encTrace) == len(old(encTrace)) + len(roots) && (forall k int :: {roots[k]} 0 <= k && k < len(roots) ==> isType(encTrace[len(old(encTrace)) + k], $T) && as(encTrace[len(old(encTrace)) + k], $T).Name == roots[k].name && len(as(encTrace[len(old(encTrace)) + k], $T).Children) == len(roots[k].children)) && wfail == old(wfail)
+//@   ensures fail [C14]: result != nil ==> wfail
+//@ applies formattedSpreadSpec to gtree.formattedSpreaderSimple.spread[jsonNode], gtree.formattedSpreaderSimple.spread[yamlNode], gtree.formattedSpreaderSimple.spread[tomlNode]
+//@ loop gtree.formattedSpreaderSimple.spread#1
+//@   invariant sofar: len(encTrace) == len(old(encTrace)) + $i && take(encTrace, len(old(encTrace))) == old(encTrace) && wfail == old(wfail) && encoders == old(encoders) + 1
+//@   invariant each: forall k int :: {roots[k]} 0 <= k && k < $i ==> isType(encTrace[len(old(encTrace)) + k], $T) && as(encTrace[len(old(encTrace)) + k], $T).Name == roots[k].name && len(as(encTrace[len(old(encTrace)) + k], $T).Children) == len(roots[k].children)
+
+// interface-level view of the formatted spreader (the dynamic type does not reveal the instance): consequences of the
+// three verified instance contracts, hence assumed here
+//@ func gtree.formattedSpreaderSimple.spread
+//@   assumed
+//@   modifies out, wfail, encTrace, encoders
+//@   ensures once [C04]: encoders == old(encoders) + 1
+//@   ensures fail [C14]: result != nil ==> wfail
+//@   ensures quiet [C14]: result == nil ==> wfail == old(wfail)
+//@   ensures sticky: old(wfail) ==> wfail
+//@ func gtree.formattedSpreaderSimple.spreadIter
+//@   assumed
+//@   param rootIter follows grownStream
+//@   yields errStream
+
+// struct tags of the records handed to the encoders
+//@ tag jsonNode.Name json "value" [C04]
+//@ tag jsonNode.Children json "children" [C04]
+//@ tag yamlNode.Name yaml "value" [C04]
+//@ tag yamlNode.Children yaml "children" [C04]
+//@ tag tomlNode.Name toml "value" [C04]
+//@ tag tomlNode.Children toml "children" [C04]
